@@ -36,4 +36,196 @@ macro_rules! k04_cmp_equiv {
     };
 }
 
+fn eqb<const T: usize>(a: &[u64; T], b: &[u64]) -> bool {
+    let mut i = 0;
+    while i < T {
+        if a[i] != b[i] {
+            return false;
+        }
+        i += 1;
+    }
+    true
+}
+
+/// L1 walk lemma, P: `p_canonization_ind` over an ARBITRARY swap sequence of length <= 2 leaves the table as
+/// the full product, `best` as the minimum of the input and the visited candidates (first strict
+/// improvement), and `p_canonization_res` decodes the returned index into a permutation that maps the
+/// input to `best` (checked pointwise on a symbolic assignment) -- including "no candidate improves".
+/// Candidates are computed with the public swap (exact by C03).
+macro_rules! k04_walk_p {
+    ($name:ident, $n:literal, $t:literal, $u:literal) => {
+        #[kani::proof]
+        #[kani::unwind($u)]
+        pub fn $name() {
+            const N: usize = $n;
+            const T: usize = $t;
+            type L = crate::StaticLut<N, T>;
+            let t0 = any_blocks::<T>(N);
+            let seq: [u8; 2] = kani::any();
+            kani::assume((seq[0] as usize) < N - 1 && (seq[1] as usize) < N - 1);
+            let len: usize = kani::any();
+            kani::assume(len <= 2);
+            let mut table = t0;
+            let mut best = [0u64; T];
+            let ind = crate::canonization::p_canonization_ind(N, &mut table, &mut best, &seq[..len]);
+            let f = L::from_blocks(&t0);
+            let c1 = f.swap(seq[0] as usize, seq[0] as usize + 1);
+            let c2 = c1.swap(seq[1] as usize, seq[1] as usize + 1);
+            let mut b = f;
+            let mut i = 0usize;
+            if len >= 1 && c1 < b {
+                b = c1;
+                i = 1;
+            }
+            if len >= 2 && c2 < b {
+                b = c2;
+                i = 2;
+            }
+            let fin = if len == 0 { f } else if len == 1 { c1 } else { c2 };
+            assert!(eqb(&table, fin.blocks()));
+            assert!(eqb(&best, b.blocks()));
+            assert!(ind == i);
+            // decode
+            let mut perm = [0u8; N];
+            crate::canonization::p_canonization_res(N, &mut perm, &seq[..len], ind);
+            assert!(is_perm(&perm, N));
+            let y = any_m(N);
+            let mut x = 0usize;
+            let mut k = 0;
+            while k < N {
+                x |= ((y >> k) & 1) << (perm[k] as usize);
+                k += 1;
+            }
+            assert!(bit(&best, y) == bit(&t0, x));
+            kani::cover!(ind == 0 && len == 2, "no candidate improves");
+            kani::cover!(ind == 2, "second candidate is the best");
+            kani::cover!(true, "reached");
+        }
+    };
+}
+
+/// L1 walk lemma, N: arbitrary flip sequence of length <= 2, both output polarities after every flip.
+macro_rules! k04_walk_n {
+    ($name:ident, $n:literal, $t:literal, $u:literal) => {
+        #[kani::proof]
+        #[kani::unwind($u)]
+        pub fn $name() {
+            const N: usize = $n;
+            const T: usize = $t;
+            type L = crate::StaticLut<N, T>;
+            let t0 = any_blocks::<T>(N);
+            let seq: [u8; 2] = kani::any();
+            kani::assume((seq[0] as usize) < N && (seq[1] as usize) < N);
+            let len: usize = kani::any();
+            kani::assume(len <= 2);
+            let mut table = t0;
+            let mut best = [0u64; T];
+            let ind = crate::canonization::n_canonization_ind(N, &mut table, &mut best, &seq[..len]);
+            let f = L::from_blocks(&t0);
+            let mut cur = f;
+            let mut b = f;
+            let mut i = 0usize;
+            let mut idx = 0usize;
+            let mut k = 0;
+            while k < len {
+                cur = cur.flip(seq[k] as usize);
+                let mut r = 0;
+                while r < 2 {
+                    cur = !cur;
+                    idx += 1;
+                    if cur < b {
+                        b = cur;
+                        i = idx;
+                    }
+                    r += 1;
+                }
+                k += 1;
+            }
+            assert!(eqb(&table, cur.blocks()));
+            assert!(eqb(&best, b.blocks()));
+            assert!(ind == i);
+            let mask = crate::canonization::n_canonization_res(N, &seq[..len], ind);
+            assert!(mask < (1u32 << (N + 1)));
+            let y = any_m(N);
+            let x = y ^ ((mask as usize) & ((1usize << N) - 1));
+            assert!(bit(&best, y) == (bit(&t0, x) ^ ((mask >> N) & 1 == 1)));
+            kani::cover!(ind == 0 && len == 2, "no candidate improves");
+            kani::cover!(ind == 3, "complemented candidate after the second flip is the best");
+            kani::cover!(true, "reached");
+        }
+    };
+}
+
+/// L1 walk lemma, NPN.  Shapes: (<= 1 swap) x (<= 2 arbitrary flips), and ($closed) 2 swaps x the closed flip
+/// cycle [v, v] -- the decoder accumulates input flips across swaps, which is only meaningful when every
+/// inner flip cycle returns to the start, as the real (rolled-back Gray) sequences do (lemma L2 "closed").
+macro_rules! k04_walk_npn {
+    ($name:ident, $n:literal, $t:literal, $slen:literal, $flen:literal, $closed:literal, $u:literal) => {
+        #[kani::proof]
+        #[kani::unwind($u)]
+        pub fn $name() {
+            const N: usize = $n;
+            const T: usize = $t;
+            type L = crate::StaticLut<N, T>;
+            let t0 = any_blocks::<T>(N);
+            let sw: [u8; 2] = kani::any();
+            let fl: [u8; 2] = kani::any();
+            kani::assume((sw[0] as usize) < N - 1 && (sw[1] as usize) < N - 1);
+            kani::assume((fl[0] as usize) < N && (fl[1] as usize) < N);
+            // concrete shape (symbolic trip counts in the triple loop nest were measured to time out even at n = 2)
+            let slen: usize = $slen;
+            let flen: usize = $flen;
+            if $closed {
+                kani::assume(fl[0] == fl[1]);
+            }
+            let mut table = t0;
+            let mut best = [0u64; T];
+            let ind = crate::canonization::npn_canonization_ind(N, &mut table, &mut best, &sw[..slen], &fl[..flen]);
+            let f = L::from_blocks(&t0);
+            let mut cur = f;
+            let mut b = f;
+            let mut i = 0usize;
+            let mut idx = 0usize;
+            let mut a = 0;
+            while a < slen {
+                cur = cur.swap(sw[a] as usize, sw[a] as usize + 1);
+                let mut k = 0;
+                while k < flen {
+                    cur = cur.flip(fl[k] as usize);
+                    let mut r = 0;
+                    while r < 2 {
+                        cur = !cur;
+                        idx += 1;
+                        if cur < b {
+                            b = cur;
+                            i = idx;
+                        }
+                        r += 1;
+                    }
+                    k += 1;
+                }
+                a += 1;
+            }
+            assert!(eqb(&table, cur.blocks()));
+            assert!(eqb(&best, b.blocks()));
+            assert!(ind == i);
+            let mut perm = [0u8; N];
+            let mask = crate::canonization::npn_canonization_res(N, &mut perm, &sw[..slen], &fl[..flen], ind);
+            assert!(is_perm(&perm, N));
+            assert!(mask < (1u32 << (N + 1)));
+            let y = any_m(N);
+            let mut x = 0usize;
+            let mut k = 0;
+            while k < N {
+                x |= (((y >> k) & 1) ^ ((mask as usize >> k) & 1)) << (perm[k] as usize);
+                k += 1;
+            }
+            assert!(bit(&best, y) == (bit(&t0, x) ^ ((mask >> N) & 1 == 1)));
+            kani::cover!(ind == 0 && idx >= 2, "no candidate improves");
+            kani::cover!(ind >= 3, "a late candidate is the best");
+            kani::cover!(true, "reached");
+        }
+    };
+}
+
 // ---- instantiations (generated by /verif/lib/registry.py) ----
